@@ -56,7 +56,7 @@ func init() {
 	props["C10"] = &propCfg{Engine: "cluster", Variants: []string{""}, Quick: 1500, Thorough: 100000, Chunk: 50, QuickWall: 100, ThorWall: 1500,
 		Rule:  "each run = a generated topology of 1-3 data centers x 1-3 racks x 1-4 modelled volume servers (max 1-4 slots, 0..max+1 used, optional ssd disks, EC shards, remote volumes) registered with the real master through heartbeats, then 3-10 growth requests for replication strings 000..222 with and without data center / rack / server preference (some unsatisfiable), interleaved with heartbeats that change the free slots; the AllocateVolume RPCs the master really issues are recorded at fake volume-server gRPC endpoints on the simulated network; oracle: the servers allocated for one new volume id are 1+x+y+z distinct servers, each with a free slot of the requested disk type in the registered state, z+1 in one rack, y in other racks of the same data center, x in other data centers, preferences honoured; when a brute-force search finds no valid set, nothing may be allocated; non-trivial = a heartbeat changed capacity between requests; distinct = distinct abstract traces",
 		Real:  []string{"weed/topology VolumeGrowth (GrowByCountAndType, findEmptySlotsForOneVolume, PickNodesByWeight, ReserveOneVolume, AllocateVolume), topology registration", "weed/server MasterServer.SendHeartbeat", "gRPC client/server stacks over in-memory connections"}, Stub: []string{"volume servers: modelled heartbeat sources with a recording AllocateVolume endpoint", "raft: RaftStub"},
-		Assume: []string{"partial claim: the placement rule over arbitrary topologies is a function of (topology, RNG draws); the simulator owns the RNG (seeded per run) and the interleaving with heartbeats", "only 'no invalid or partial placement' is checked, not that growth succeeds whenever a valid set exists", "allocation RPCs always succeed in this check"}}
+		Assume: []string{"a server's free slots for a disk type = max - (volumes - remote volumes) - (EC shards/10 + 1 when it holds EC shards): the figure the master itself publishes (DiskUsageCounts.FreeSpace, status page)", "partial claim: the placement rule over arbitrary topologies is a function of (topology, RNG draws); the simulator owns the RNG (seeded per run) and the interleaving with heartbeats", "only 'no invalid or partial placement' is checked, not that growth succeeds whenever a valid set exists", "allocation RPCs always succeed in this check"}}
 }
 
 func init() {
